@@ -245,9 +245,143 @@ def fuse_elems(t: T) -> T:
     return cur
 
 
+# ------------------------------------------------- de-vectorisation
+# A vectorised numpy expression and the comprehension it replaces denote the
+# same array.  `devectorise` rewrites the vectorised spellings evo-sized code
+# uses into the canonical element-wise form the rules reason about:
+#   a, b = (np.array(c) for c in zip(*P)); a   ->  array([p[0] for p in P])
+#   X[I]            (I element-wise over P)    ->  array([X[i_p] for p in P])
+#   A op B          (both element-wise over P) ->  array([a_p op b_p for ..])
+#   norm(M, axis=1) (M element-wise / rows)    ->  array([norm(m) for m in M])
+#   ufunc(A)        (abs, sqrt, ... )          ->  array([ufunc(a) for ..])
+# Only shapes whose meaning is unambiguous are rewritten; everything else is
+# left as it is (the consuming rule then reports an unknown idiom).
+_FRESH = [10 ** 6]
+_UFUNCS = ("numpy.abs", "numpy.absolute", "numpy.fabs", "numpy.sqrt",
+           "numpy.square", "numpy.rad2deg", "numpy.degrees",
+           "numpy.deg2rad", "numpy.radians", "numpy.negative")
+_WRAP = ("numpy.array", "numpy.asarray", "builtins.list", "builtins.tuple")
+
+
+_LIDS: Dict[int, tuple] = {}
+
+
+def _fresh(it: T) -> int:
+    """one loop id per iterable, so that equal arrays get equal terms"""
+    got = _LIDS.get(id(it))
+    if got is None:
+        _FRESH[0] += 1
+        got = _LIDS[id(it)] = (_FRESH[0], it)
+    return got[0]
+
+
+def _as_comp(t: T):
+    """(element, lid, iterable) if t is an unconditional single-generator
+    element-wise array"""
+    src = t
+    while is_call_to(src, *_WRAP) and len(src.args[1]) == 1:
+        src = src.args[1][0]
+    if src.op == "comp" and src.args[0] in ("list", "gen") and \
+            len(src.args[2]) == 1 and not src.args[3]:
+        it, lid = src.args[2][0]
+        return src.args[1], lid, it
+    return None
+
+
+def _mk_array(elt: T, it: T, lid: int) -> T:
+    return tm.call(tm.glob("numpy.array"),
+                   (T("comp", "list", elt, ((it, lid),), ()),), ())
+
+
+def _rename(elt: T, old: int, new: int) -> T:
+    def ren(y: T):
+        if y.op == "elem" and y.args[1] == old:
+            return T("elem", y.args[0], new)
+        if y.op == "index" and y.args[0] == old:
+            return T("index", new)
+        return None
+    return elt.map(ren) if old != new else elt
+
+
+def _is_scalar(t: T) -> bool:
+    return tm.is_const(t) and isinstance(tm.const_val(t), (int, float))
+
+
+def devectorise(t: T) -> T:
+    def rw(x: T):
+        # k-th item of a transposed pair list
+        if x.op == "sub" and tm.is_const(x.args[1]) and \
+                isinstance(tm.const_val(x.args[1]), int):
+            k = tm.const_val(x.args[1])
+            c = x.args[0]
+            base = c
+            while is_call_to(base, *_WRAP) and len(base.args[1]) == 1:
+                base = base.args[1][0]
+            if base.op == "comp" and len(base.args[2]) == 1 and \
+                    not base.args[3]:
+                it, lid = base.args[2][0]
+                if is_call_to(it, "builtins.zip") and len(it.args[1]) == 1 \
+                        and it.args[1][0].op == "star" and k >= 0:
+                    P = it.args[1][0].args[0]
+                    L = _fresh(P)
+                    col = T("comp", "list",
+                            tm.sub(T("elem", P, L), const(k)), ((P, L),), ())
+                    hole = T("elem", it, lid)
+                    return base.args[1].map(
+                        lambda y: col if y is hole else None)
+            if is_call_to(base, "builtins.zip") and \
+                    len(base.args[1]) == 1 and \
+                    base.args[1][0].op == "star" and k >= 0:
+                P = base.args[1][0].args[0]
+                L = _fresh(P)
+                return T("comp", "list", tm.sub(T("elem", P, L), const(k)),
+                         ((P, L),), ())
+        # fancy indexing with an element-wise index array
+        if x.op == "sub":
+            ci = _as_comp(x.args[1])
+            if ci is not None and _as_comp(x.args[0]) is None:
+                ie, lid, it = ci
+                return _mk_array(tm.sub(x.args[0], ie), it, lid)
+        if x.op == "binop":
+            a, b = x.args[1], x.args[2]
+            ca, cb = _as_comp(a), _as_comp(b)
+            if ca and cb and ca[2] is cb[2]:
+                return _mk_array(T("binop", x.args[0], ca[0],
+                                   _rename(cb[0], cb[1], ca[1])),
+                                 ca[2], ca[1])
+            if ca and _is_scalar(b):
+                return _mk_array(T("binop", x.args[0], ca[0], b), ca[2],
+                                 ca[1])
+            if cb and _is_scalar(a):
+                return _mk_array(T("binop", x.args[0], a, cb[0]), cb[2],
+                                 cb[1])
+        if is_call_to(x, "numpy.linalg.norm") and len(x.args[1]) == 1:
+            kw = dict(x.args[2])
+            ax = kw.get("axis")
+            if ax is not None and tm.is_const(ax) and \
+                    tm.const_val(ax) in (1, -1) and len(kw) == 1:
+                m = x.args[1][0]
+                cm = _as_comp(m)
+                nrm = tm.glob("numpy.linalg.norm")
+                if cm:
+                    return _mk_array(tm.call(nrm, (cm[0],), ()), cm[2],
+                                     cm[1])
+                L = _fresh(m)
+                return _mk_array(tm.call(nrm, (T("elem", m, L),), ()), m, L)
+        if is_call_to(x, *_UFUNCS) and len(x.args[1]) == 1 and \
+                not x.args[2]:
+            cm = _as_comp(x.args[1][0])
+            if cm:
+                return _mk_array(tm.call(x.args[0], (cm[0],), ()), cm[2],
+                                 cm[1])
+        return None
+    return t.map(rw)
+
+
 def per_element(t: T):
     """(element term, loop id, iterable) of an array built element-wise:
     np.array([f(x) for x in X]) -> (f(elem(X)), lid, X)"""
+    t = devectorise(t)
     src = t
     while src.op == "call" and is_call_to(src, "numpy.array", "numpy.asarray",
                                           "builtins.list") and \
